@@ -367,7 +367,123 @@ def oracle_faults_bd(ctx):
                 samples=samples, failures=failures)
 
 
+# ------------------------------------------------------------------ errors raised by the library itself
+
+
+def le_problem(rng):
+    """H_0 with a level shared by two DIFFERENT blocks: solve_sylvester_diagonal refuses that block pair with
+    ValueError("The subspaces must not share eigenvalues.") on every request that needs it"""
+    nb = rng.choice([2, 2, 3])
+    sizes = [rng.randint(1, 2) for _ in range(nb)]
+    pool = rng.sample(range(1, 30), sum(sizes))  # non-zero levels: an all-zero H_0 diagonal is rejected at definition
+    E, k = [], 0
+    for sz in sizes:
+        E.append(sorted(pool[k:k + sz])); k += sz
+    b1, b2 = sorted(rng.sample(range(nb), 2))
+    E[b2][rng.randrange(len(E[b2]))] = E[b1][rng.randrange(len(E[b1]))]  # the shared level
+    if len(set(E[b2])) < len(E[b2]):
+        E[b2] = sorted(E[b2])
+    N = sum(sizes)
+    a = [[rng.randint(-3, 3) for _ in range(N)] for _ in range(N)]
+    h1 = [[a[i][j] + a[j][i] for j in range(N)] for i in range(N)]
+    a = [[rng.randint(-2, 2) for _ in range(N)] for _ in range(N)]
+    h2 = [[a[i][j] + a[j][i] for j in range(N)] for i in range(N)]
+    return dict(nb=nb, sizes=sizes, E=E, h1=h1, h2=h2, pair=[b1, b2],
+                fmt=rng.choice(["dense", "sparse", "sympy"]), own_solver=rng.random() < 0.4)
+
+
+def le_build(prob):
+    import warnings
+    import numpy as np
+    import scipy.sparse as sp
+    import sympy
+    from pymablock import block_diagonalize
+    from pymablock.block_diagonalization import solve_sylvester_diagonal
+
+    flatE = [e for blk in prob["E"] for e in blk]
+    sub = [b for b, sz in enumerate(prob["sizes"]) for _ in range(sz)]
+    mats = [np.diag(np.array(flatE, dtype=float)), np.array(prob["h1"], dtype=float), np.array(prob["h2"], dtype=float)]
+    kw = dict(subspace_indices=sub)
+    if prob["fmt"] == "sparse":
+        mats = [sp.csr_array(m) for m in mats]
+    elif prob["fmt"] == "sympy":
+        mats = [sympy.Matrix(m).applyfunc(sympy.nsimplify) for m in mats]
+    H = {(k,): m for k, m in enumerate(mats)}  # one parameter: H_0 + x H_1 + x^2 H_2
+    if prob["own_solver"] and prob["fmt"] != "sympy":
+        kw["solve_sylvester"] = solve_sylvester_diagonal(tuple(np.array(blk, dtype=float) for blk in prob["E"]))
+    with warnings.catch_warnings():
+        warnings.simplefilter("ignore")
+        return block_diagonalize(H, **kw)
+
+
+def le_outcome(out, req):
+    import warnings
+    from harness import k_schedules as KSCH
+
+    s, ix = req
+    with warnings.catch_warnings():
+        warnings.simplefilter("ignore")
+        try:
+            return KSCH._canon(out[s][tuple(ix)])
+        except BaseException as e:  # noqa: BLE001
+            return ("exn", PG.exn_class(e) if PG.exn_class(e) in PG.EXN_COQ else type(e).__name__)
+
+
+def le_check(prob, reqs):
+    """every outcome (value or exception class) of a schedule equals the outcome of the same request in a fresh
+    computation; no PENDING marker is left behind"""
+    try:
+        out = le_build(prob)
+    except (ValueError, NotImplementedError):
+        return None  # the problem itself is rejected at definition: nothing to compare
+    for k, req in enumerate(reqs):
+        got = le_outcome(out, req)
+        fresh = le_outcome(le_build(prob), req)
+        if got != fresh:
+            def show(o):
+                return o[1] if (isinstance(o, tuple) and o[0] == "exn") else "a value"
+            return "request %d %s: %s, but a fresh computation gives %s (after the library refused an earlier request)" % (
+                k, (OUTS3[req[0]], req[1]), show(got), show(fresh))
+        g = out[0].eval.__globals__
+        from pymablock.series import PENDING
+
+        if any(v is PENDING for d in (g["series"], g["linear_operator_series"]) for srs in d.values() for v in srs._data.values()):
+            return "PENDING marker left behind after the library raised an error"
+    return None
+
+
+OUTS3 = ("H_tilde", "U", "U†")
+
+
+def oracle_library_errors(ctx):
+    rng = ctx.rng
+    evaluations = nontrivial = 0
+    failures, samples = [], []
+    dist = {}
+    for _ in range(ctx.n(14, 150)):
+        prob = le_problem(rng)
+        b1, b2 = prob["pair"]
+        nb = prob["nb"]
+        first = (rng.choice([1, 2, 0]), [b1, b2, rng.choice([1, 2])])
+        others = [(rng.randrange(3), [rng.randrange(nb), rng.randrange(nb), rng.randrange(3)]) for _ in range(3)]
+        reqs = [first, first, (0, [b1, b1, 2]), others[0], (1, [b1, b2, 1]), others[1], first, others[2]]
+        evaluations += 1
+        nontrivial += 1
+        key = "%s/%dblocks/%s" % (prob["fmt"], nb, "own" if prob["own_solver"] and prob["fmt"] != "sympy" else "default")
+        dist[key] = dist.get(key, 0) + 1
+        what = le_check(prob, reqs)
+        if what:
+            failures.append(dict(what=what, input=dict(level="library_errors", problem=prob, requests=[[r[0], r[1]] for r in reqs])))
+        if len(samples) < 1:
+            samples.append(dict(problem=prob, requests=reqs))
+    return dict(evaluations=evaluations, nontrivial=nontrivial,
+                rule="H_0 with a level shared by two blocks (ValueError raised by solve_sylvester_diagonal itself); %s" % dist,
+                samples=samples, failures=failures)
+
+
 def replay_input(inp):
+    if inp.get("level") == "library_errors":
+        return le_check(inp["problem"], [(r[0], r[1]) for r in inp["requests"]])
     if inp.get("level") == "block_diagonalize":
         return bd_check(inp["problem"], [(r[0], r[1]) for r in inp["requests"]], [tuple(x) for x in inp["plan"]])
     w = PG.world_from_json(inp["world"])
